@@ -73,7 +73,7 @@ def explore(run_with_chooser, budget, preemption_bound):
 
 def stp_case(cfg, chooser):
     common.gc_point()
-    r = sched.StpRun(cfg['b'], cfg['items'], cfg['ending'], cfg['stop'], chooser, excf).run()
+    r = sched.StpRun(cfg['b'], cfg['items'], cfg['ending'], cfg['stop'], chooser, excf, gen_source=bool(cfg.get('gensrc'))).run()
     return {'proto': 'stp', 'cfg': cfg, 'run': r}
 
 
@@ -222,7 +222,8 @@ def random_cfg(rng, proto, max_n):
     stop = rng.choice([None, None, None, 0, 1, 2, 3, n])
     if proto == 'stp':
         return {'b': rng.choice([1, 1, 2, 3, 4]), 'items': items,
-                'ending': rng.choice([None, None, 'ValueError', 'UserA', 'UserBase']), 'stop': stop}
+                'ending': rng.choice([None, None, 'ValueError', 'UserA', 'UserBase']), 'stop': stop,
+                'gensrc': rng.random() < 0.4}
     w = rng.choice([1, 2, 3])
     return {'w': w, 'b': w + rng.choice([0, 0, 1, 2]), 'items': items,
             'ending': rng.choice([None, None, None, 'ValueError']),
@@ -276,12 +277,12 @@ def run(rep, prop, which):
     for i in range(n_random // 2):
         w = rng.choice([1, 2, 3])
         n = rng.choice([0, 1, 3, 5, 8, 12])
-        cfg = {'via': rng.choice(['parmap', 'parmap', 'prefetch', 'batchmap']), 'w': w, 'b': w + rng.choice([0, 0, 1, 2]),
+        cfg = {'via': rng.choice(['parmap', 'parmap', 'prefetch', 'batchmap', 'prefetch_catch']), 'w': w, 'b': w + rng.choice([0, 0, 1, 2]),
                'items': [rng.randint(0, 9) for _ in range(n)], 'ending': None,
                'fm': rng.choice([0, 0, 0, 3]), 'fr': rng.randrange(3), 'fcls': 'UserA',
                'stop': rng.choice([None, None, 1, 2, 3, n]), 'with_items': rng.random() < 0.5,
                'view': rng.choice([None, None, 'copy', 'freeze'])}
-        if cfg['via'] == 'prefetch' and w == 1:
+        if cfg['via'] in ('prefetch', 'prefetch_catch') and w == 1:
             cfg['w'], cfg['b'] = 2, 2 + rng.choice([0, 1])
         api_cases.append(api_case(cfg, sched.RandomChooser(rng.randrange(1 << 30))))
     for c in api_cases:
